@@ -171,6 +171,21 @@ func GenPlan(profile string, seed uint64, thorough bool) *Plan {
 
 	if r.Intn(10) == 0 {
 		p.Wide = []string{"nodes", "tables", "entities", "filters"}[r.Intn(4)]
+	}
+	if (profile == "C03" || profile == "C13" || profile == "C06") && r.Intn(7) == 0 {
+		p.Wide = "tables" // more than one page (32) of target tables in one relation node
+	}
+	if p.Wide == "tables" && len(p.Types) > 2 {
+		// very few component sets, so that one relation node really collects more than a page (32) of target tables
+		p.Types = p.Types[:2]
+		p.Types[0].Kind, p.Types[0].Fillers, p.Types[0].Late = "rel", 0, false
+		if p.Types[1].Kind == "rel" {
+			p.Types[1].Kind = "bytes"
+		}
+		p.Types[1].Late = false
+		p.DeadPermille = 0
+	}
+	if p.Wide != "" {
 		switch p.Wide {
 		case "entities":
 			p.EntityCap = 150 + r.Intn(100)
@@ -180,10 +195,14 @@ func GenPlan(profile string, seed uint64, thorough bool) *Plan {
 			p.Weights["fnew"] = 30
 			p.Weights["freg"] = 30
 		case "tables":
-			p.Weights["setrel"] = 30
-			p.Weights["new"] = 25
-			p.EntityCap = 100 + r.Intn(60)
-			p.Steps += 150
+			p.Weights["setrel"] = 50
+			p.Weights["new"] = 40
+			p.Weights["newbatch"] = 12
+			p.Weights["rm"] = 3
+			p.Weights["reset"] = 0
+			p.Weights["xchg"] = 6
+			p.EntityCap = 160 + r.Intn(60)
+			p.Steps += 450
 		case "nodes":
 			p.Weights["xchg"] = 40
 			p.Steps += 100
@@ -206,6 +225,8 @@ func tuneProfile(p *Plan, r *Rng, thorough bool) {
 		p.EntityCap = 6 + r.Intn(30)
 		w["new"], w["rm"], w["newbatch"], w["batch"] = 18, 16, 10, 10
 		w["reset"] = 2
+		w["dump"] = 2
+		p.LoadTwin = true
 	case "C03":
 		w["qopen"], w["qnext"], w["qclose"] = 12, 30, 6
 		w["fnew"], w["freg"] = 8, 6
@@ -246,6 +267,8 @@ func tuneProfile(p *Plan, r *Rng, thorough bool) {
 		p.EntityCap = 6 + r.Intn(20)
 	case "C10":
 		p.IllegalPermille = []int{200, 350, 500}[r.Intn(3)]
+		p.FillToLimit = r.Intn(6) == 0
+		w["regtype"] = 4
 		p.DeadPermille = []int{150, 300}[r.Intn(2)]
 		w["read"] = 8
 		w["res"] = 5
